@@ -64,7 +64,13 @@ getSuffix(
 
     // We're assuming here that each node has an implementation with a 
     // unique address that we can convert into a string...
-    PointerToDOMString(theNode->getOwnerDocument(), theResult);
+    // A document node has no owner document: "%p" of a null pointer is "(nil)" with glibc,
+    // which is neither alphanumeric nor an XML name.  A document owns itself here.
+    const XalanDocument* const  theOwner = theNode->getOwnerDocument();
+
+    PointerToDOMString(
+        theOwner != 0 ? static_cast<const void*>(theOwner) : static_cast<const void*>(theNode),
+        theResult);
 
     theResult.append(1, XalanUnicode::charLetter_N);
 
